@@ -29,10 +29,23 @@ def duplicate_guard_rule(ctx, rule):
         slot_re = r"^\.(%s)\[" % "|".join(map(re.escape, slot_fields))
         stores = []
         x = X(f.body)
+        sl_ = Slicer(f.body)
+        via_get_mut = {}   # local name -> the get_mut(..) call it aliases an element of
+        for name_, ds_ in sl_.var_defs().items():
+            ds_ = [d for d in ds_ if d[0] == ""]
+            for d_ in ds_:
+                ex_ = sl_.expand(d_[1])
+                gm = [c for c in walk(ex_) if c[0] == "call" and re.search(r"::get_mut$", c[1]) and len(c[2]) == 2 and
+                      any(("self." + sf) in show(c[2][0]) for sf in slot_fields) and "esi" in show(c[2][1])]
+                if gm:
+                    via_get_mut[name_] = gm[0]
         for blk in f.body.blocks:
             if blk.cleanup:
                 continue
             for s in blk.stmts:
+                if s.k == "assign" and s.lhs[1] and f.body.names.get(s.lhs[0]) in via_get_mut and all(e[0] == "*" for e in s.lhs[1]):
+                    stores.append((blk.i, s, "get_mut:" + f.body.names.get(s.lhs[0])))
+                    continue
                 if s.k == "assign" and s.lhs[1]:
                     pe = x.place(s.lhs)
                     if pe[0] == "var" and pe[1] == "self" and re.match(slot_re, pe[2]):
@@ -63,6 +76,11 @@ def duplicate_guard_rule(ctx, rule):
             key = "%s store into %s[esi]" % (f.path, slot_fields[0])
             dup = any(a[0] == "variant" and slot_txt(a[1]) and ((a[2] == "Some" and not t) or (a[2] == "None" and t)) for (a, t) in fs)
             rng = any(a[0] in ("lt", "le") and t and slot_txt(a[2]) and "esi" in show(a[1]) for (a, t) in fs)
+            if kind.startswith("get_mut:"):
+                nm_ = kind.split(":", 1)[1]
+                # `match v.get_mut(esi) { Some(slot) => .. }`: in range because get_mut answered Some; first copy because *slot is None
+                rng = any(a[0] == "variant" and ((a[2] == "Some") == t) and re.search(r"::get_mut\(", show(a[1], 300)) and slot_txt(a[1]) for (a, t) in fs)
+                dup = any(a[0] == "variant" and ((a[2] == "None") == t) and re.sub(r"[*&()]", "", show(a[1])) == nm_ for (a, t) in fs)
             if dup and rng:
                 rule.ok(key, "dominated by `slot is None` and `esi < len`", loc(s.sp))
             else:
@@ -79,7 +97,8 @@ def duplicate_guard_rule(ctx, rule):
                 v = x.rvalue(s.rv, x.depth)
                 if pe[0] == "var" and pe[1] == "self" and v[0] == "bin" and v[1].startswith("Add") and v[2] == pe:
                     fs = flow.facts_at(blk.i)
-                    dup = any(a[0] == "variant" and slot_txt(a[1]) and ((a[2] == "Some" and not t) or (a[2] == "None" and t)) for (a, t) in fs)
+                    dup = any(a[0] == "variant" and slot_txt(a[1]) and ((a[2] == "Some" and not t) or (a[2] == "None" and t)) for (a, t) in fs) or \
+                        any(a[0] == "variant" and ((a[2] == "None") == t) and re.sub(r"[*&()]", "", show(a[1])) in via_get_mut for (a, t) in fs)
                     key = "%s counter %s" % (f.path, show(pe))
                     if dup:
                         rule.ok(key, "incremented only for a new symbol", loc(s.sp))
